@@ -1,9 +1,45 @@
 use crate::engine::Property;
 
+pub mod c03;
+pub mod c04;
+pub mod c07;
+pub mod c08;
+pub mod c09;
+pub mod c10;
+pub mod c15;
 pub mod c11;
+pub mod c16;
+pub mod c17;
+pub mod c21;
+pub mod c12;
+pub mod c13;
+pub mod c14;
+pub mod c18;
+pub mod c19;
+pub mod c23;
+pub mod c36;
+pub mod c32;
 
 pub fn registry() -> Vec<(&'static str, fn() -> Property)> {
     vec![
+        ("C36", c36::property),
+        ("C23", c23::property),
+        ("C19", c19::property),
+        ("C18", c18::property),
+        ("C14", c14::property),
+        ("C13", c13::property),
+        ("C12", c12::property),
+        ("C15", c15::property),
+        ("C10", c10::property),
+        ("C09", c09::property),
+        ("C17", c17::property),
+        ("C16", c16::property),
+        ("C07", c07::property),
+        ("C04", c04::property),
+        ("C03", c03::property),
+        ("C21", c21::property),
+        ("C08", c08::property),
         ("C11", c11::property),
+        ("C32", c32::property),
     ]
 }
